@@ -18,7 +18,7 @@ def run_case(case):
     std = case["std"]
     canon = p.text()
     if case["layout"]:
-        L = layout.render_free(p, case["seed"] ^ 0xC02, layout.FreeOpts(comments=True))
+        L = layout.render_free(p, case["seed"] ^ 0xC02, layout.FreeOpts(comments=True, p_semi=0.2))
         src = L.text()
     else:
         src = canon
@@ -33,6 +33,8 @@ def run_case(case):
         res["nontrivial"] = False
         return res
     printed = str(o.tree)
+    if case["seed"] % 3 == 0:
+        res["findings"] += util.token_cosim([st_.text() for st_ in p.flat()][::2], case=case)
     m = get_model()
     r = m.ask("normeq", canon, printed)
     if r[0] != "eq":
